@@ -641,6 +641,10 @@ def _c13_stuck(sc, obs, v):
 def monitor_c15(sc, obs):
     v = []
     _sink_counts(sc, obs, v, 'C15/received-parts')
+    bp = obs[-1].get('budget_probe') if obs else None
+    if bp and bp['produced'] != bp['supplied_records']:
+        _bad(v, 'C15/supplied-count', 'budget probe (budget %d adjusted by %d while part #%d is handed over): the source reports %d produced parts, there are %d supplied_new_part records' % (
+            bp['budget'], bp['cut'], bp['k'], bp['produced'], bp['supplied_records']))
     ents, _ = _ents(sc)
     last_level, last_pool = {}, {}
     counts = Counter()
